@@ -39,13 +39,16 @@ func genOne(t *rapid.T, cx *h.Ctx, allowFloat bool) OneCase {
 	c := OneCase{G: m.Apply(g), Family: "lattice", Aff: [6]float64{1, 0, 0, 0, 1, 0}}
 	if allowFloat && rapid.IntRange(0, 3).Draw(t, "floatfamily") == 0 {
 		c.Family = "float"
-		// well-conditioned float affine map
-		a := rapid.Float64Range(0.5, 2).Draw(t, "fa")
-		b := rapid.Float64Range(-0.4, 0.4).Draw(t, "fb")
-		cc := rapid.Float64Range(-0.4, 0.4).Draw(t, "fc")
-		d := rapid.Float64Range(0.5, 2).Draw(t, "fd")
-		s := math.Pow(10, float64(rapid.IntRange(-3, 6).Draw(t, "fscale")))
-		c.Aff = [6]float64{a * s, b * s, rapid.Float64Range(-1e3, 1e3).Draw(t, "ftx") * s, cc * s, d * s, rapid.Float64Range(-1e3, 1e3).Draw(t, "fty") * s}
+		// well-conditioned affine map with dyadic coefficients: the image of the
+		// small-integer geometry is computed without rounding, so validity and all
+		// incidences are preserved exactly while ordinates become non-integral
+		// floats of magnitude 2^-10 .. 2^20.
+		a := float64(rapid.IntRange(512, 2048).Draw(t, "fa")) / 1024
+		b := float64(rapid.IntRange(-400, 400).Draw(t, "fb")) / 1024
+		cc := float64(rapid.IntRange(-400, 400).Draw(t, "fc")) / 1024
+		d := float64(rapid.IntRange(512, 2048).Draw(t, "fd")) / 1024
+		s := math.Ldexp(1, rapid.IntRange(-10, 20).Draw(t, "fscale"))
+		c.Aff = [6]float64{a * s, b * s, float64(rapid.IntRange(-8000, 8000).Draw(t, "ftx")) / 8 * s, cc * s, d * s, float64(rapid.IntRange(-8000, 8000).Draw(t, "fty")) / 8 * s}
 		c.G = applyAff(g, c.Aff)
 	}
 	return c
